@@ -483,9 +483,21 @@ var c17XescModel = &Model{
 		if tier == "thorough" {
 			k, n = 7, 200000
 		}
-		allStrings([]byte{'a', '"', '\'', '&', '\t'}, k, func(b []byte) { emit(bytesCase("c17_xesc", nil, b)) })
+		allStrings([]byte{'a', '"', '\'', '&', '\t', '\n', '\r'}, k, func(b []byte) { emit(bytesCase("c17_xesc", nil, b)) })
 		for i := 0; i < n; i++ {
-			emit(bytesCase("c17_xesc", nil, genAttrVal(r, 1+i%30)))
+			b := genAttrVal(r, 1+i%30)
+			if i%3 == 0 {
+				// TAB/LF/CR, CR LF pairs and both quotes mixed in
+				var nb []byte
+				for _, c := range b {
+					nb = append(nb, c)
+					if r.Chance(1, 3) {
+						nb = append(nb, r.PickStr([]string{"\t", "\n", "\r", "\r\n", "\"", "'", "\t'", "\n\"", "&#9;", "&#10;"})...)
+					}
+				}
+				b = nb
+			}
+			emit(bytesCase("c17_xesc", nil, b))
 		}
 	},
 	Impl: func(c Case) []int64 {
@@ -1048,7 +1060,8 @@ func c17EscapeOracle(r *Rng, tier string, rep *Report) {
 		if doubles > singles {
 			want, cost = '\'', singles
 		}
-		if len(out) < 2 || out[0] != want || out[len(out)-1] != want || len(out) != len(v)+2+4*cost {
+		wsExtra := 3*bytes.Count(v, []byte{'\t'}) + 4*bytes.Count(v, []byte{'\n'}) + 4*bytes.Count(v, []byte{'\r'})
+		if len(out) < 2 || out[0] != want || out[len(out)-1] != want || len(out) != len(v)+2+4*cost+wsExtra {
 			fail(key+":quote", "quote choice / length", q(out), string(want))
 		}
 		in := append(append([]byte("<a x="), out...), '>')
@@ -1108,10 +1121,20 @@ func c17EscapeOracle(r *Rng, tier string, rep *Report) {
 			htmlCheck(v, oq, true)
 		}
 	})
-	allStrings([]byte{'a', '"', '\'', '&', ';', '\t'}, k, xmlCheck)
+	allStrings([]byte{'a', '"', '\'', '&', ';', '\t', '\r', '\n'}, k, xmlCheck)
 	allStrings([]byte{'a', '<', '&', ';'}, k+2, cdataCheck)
 	for i := 0; i < n; i++ {
 		v := bytes.ReplaceAll(genAttrVal(r, 1+i%40), []byte{0}, []byte{'0'})
+		if i%4 == 0 {
+			var nv []byte
+			for _, c := range v {
+				nv = append(nv, c)
+				if r.Chance(1, 3) {
+					nv = append(nv, r.PickStr([]string{"\t", "\n", "\r", "\r\n", "\"", "'", "\r\n'\"", "&#13;"})...)
+				}
+			}
+			v = nv
+		}
 		htmlCheck(v, []byte{0, '\'', '"'}[r.Intn(3)], r.Bool())
 		xmlCheck(v)
 		cdataCheck(v)
